@@ -224,11 +224,11 @@ def run(tier, seed):
     explore.close_pool()
     total = 0
     classes = set()
-    for n, v, cl in res:
+    for t, (n, v, cl) in zip(tasks, res):
         total += n
         classes |= cl
         for k, det in v:
-            col.add(k, det, det)
+            col.add(k, det, det, task=t)
     n_new, n_known, summary = col.finish('c17-case')
     cov = {
         'evaluations': total, 'distinct_nontrivial': len(classes),
@@ -251,12 +251,13 @@ def replay(path):
     d = json.load(open(path))
     w = d['witness']
     raws = [bytes.fromhex(x) for x in w['bytes']]
-    r1 = roundtrip(world(), w['attr'], raws, w.get('endpoint', 'json_to_bin'))
-    r2 = roundtrip(world(), w['attr'], raws, w.get('endpoint', 'json_to_bin'))
+    r1, r2 = report.twice(lambda: roundtrip(world(), w['attr'], raws, w.get('endpoint', 'json_to_bin')))
     if repr(r1) != repr(r2):
         print('HARNESS-ERROR: replay is not deterministic')
         return 2
     print('attribute', w['attr'], 'element bytes', w['bytes'])
     print('symptom:', r1[0])
     print('detail :', r1[1])
-    return 1 if r1[0] and d['key'].endswith(r1[0]) else 0
+    if r1[0] and d['key'].endswith(r1[0]):
+        return 1
+    return report.replay_in_task(d, task)
